@@ -288,6 +288,10 @@ def fam_shape(tier, kind=R):
                     yield c("diagonal", "np.diagonal(x,%d,%d,%d)" % (off, a1, a2), lambda np, x, _o=off, _a=a1, _b=a2: np.diagonal(x, _o, _a, _b), [kind(*s)])
                     yield c("diagonal", "np.diagonal(x,offset=%d,axis1=%d,axis2=%d)" % (off, a1, a2),
                             lambda np, x, _o=off, _a=a1, _b=a2: np.diagonal(x, offset=_o, axis1=_a, axis2=_b), [kind(*s)])
+    # the axis pair the rule supports, on NON-SQUARE trailing dimensions (the diagonal is shorter than one of them)
+    for s in [(2, 2, 3), (2, 3, 2), (2, 3), (3, 2)]:
+        yield c("diagonal", "np.diagonal(x,0,-1,-2) non-square trailing dims", lambda np, x: np.diagonal(x, 0, -1, -2), [kind(*s)])
+        yield c("diagonal", "np.diagonal(x,axis1=-1,axis2=-2) non-square trailing dims", lambda np, x: np.diagonal(x, axis1=-1, axis2=-2), [kind(*s)])
     for s in [(2, 2), (2, 3), (3, 2), (2, 3, 2), (3, 3, 2)]:
         yield c("trace", "np.trace(x)", lambda np, x: np.trace(x), [kind(*s)])
         yield c("trace", "x.trace() method", lambda np, x: x.trace(), [kind(*s)])
@@ -415,6 +419,11 @@ def fam_shape(tier, kind=R):
         yield c("diff", "np.diff(x)", lambda np, x: np.diff(x), [kind(*s)])
     for s in [(4,), (5,), (3,), (3, 4), (2, 3)]:
         yield c("gradient", "np.gradient(x)", lambda np, x: np.gradient(x) if x.ndim == 1 else np.gradient(x)[0] + 2 * np.gradient(x)[1], [kind(*s)])
+        if len(s) == 1 or s[0] >= 3:
+            # edge_order selects the boundary stencil: a rule that accepts the option must honour it at the boundary rows
+            yield c("gradient", "np.gradient(x,edge_order=2)", lambda np, x: np.gradient(x, edge_order=2) if x.ndim == 1 else np.gradient(x, edge_order=2)[0], [kind(*s)])
+            yield c("gradient", "np.gradient(x,axis=0,edge_order=2)", lambda np, x: np.gradient(x, axis=0, edge_order=2), [kind(*s)])
+            yield c("gradient", "np.gradient(x,edge_order=1) explicit default", lambda np, x: np.gradient(x, edge_order=1) if x.ndim == 1 else np.gradient(x, edge_order=1)[0], [kind(*s)])
         for ax in range(-len(s), len(s)):
             yield c("gradient", "np.gradient(x,axis=%d)" % ax, lambda np, x, _a=ax: np.gradient(x, axis=_a), [kind(*s)])
         if len(s) == 2:
@@ -443,6 +452,10 @@ def fam_shape(tier, kind=R):
     yield c("clip", "np.clip(x,a_min=-0.5,a_max=0.5) kwargs", lambda np, x: np.clip(x, a_min=-0.5, a_max=0.5), [kind(2)])
     yield c("clip", "np.clip(x,lo_array,hi_array)", lambda np, x: np.clip(x, onp.array([-0.5, -1.0]), onp.array([0.5, 1.0])), [kind(2)])
     yield c("clip", "np.clip(x,lo,hi) wrt lo (symbolic bound)", lambda np, x, lo: np.clip(x, lo, 10.0), [kind(2), kind(2)], 1)
+    # bounds of a LARGER shape than x (x is broadcast against them), a scalar x against array bounds
+    yield c("clip", "np.clip(x[3],lo[2,3],hi[2,3]) bounds broadcast x", lambda np, x: np.clip(x, onp.array([[-0.5, -1.0, -0.25], [-2.0, -0.1, -1.5]]), onp.array([[0.5, 1.0, 0.25], [2.0, 0.1, 1.5]])), [kind(3)])
+    yield c("clip", "np.clip(scalar,lo[3],hi[3])", lambda np, x: np.clip(x, onp.array([-0.5, -1.0, -0.25]), onp.array([0.5, 1.0, 0.25])), [sc])
+    yield c("clip", "np.clip(x[2,1],lo[3],hi) bounds broadcast x", lambda np, x: np.clip(x, onp.array([-0.5, -1.0, -0.25]), 0.75), [kind(2, 1)])
     yield c("full", "np.full((2,3),scalar)", lambda np, x: np.full((2, 3), x), [sc])
     yield c("full", "np.full((2,3),0-d)", lambda np, x: np.full((2, 3), x), [kind()])
     yield c("full", "np.full((2,3),x[3]) array fill", lambda np, x: np.full((2, 3), x), [kind(3)])
@@ -461,6 +474,11 @@ def fam_shape(tier, kind=R):
         yield c("linspace", "np.linspace(s,t,%s%s) wrt stop" % ("4," if args_ else "", lab), lambda np, x, y, _kw=kw, _a=args_: np.linspace(x, y, *_a, **_kw), [sc, sc], 1)
         yield c("linspace", "np.linspace(-1.0,t,%s%s) wrt stop" % ("4," if args_ else "", lab), lambda np, y, _kw=kw, _a=args_: np.linspace(-1.0, y, *_a, **_kw), [sc], 0)
     yield c("linspace", "np.linspace(x[2],2.0,3) array start", lambda np, x: np.linspace(x, 2.0, 3), [kind(2)])
+    # start and stop of DIFFERENT shapes (NumPy broadcasts them)
+    yield c("linspace", "np.linspace(s,stop[2],4) scalar start, array stop", lambda np, x: np.linspace(x, onp.array([1.0, 2.0]), 4), [sc])
+    yield c("linspace", "np.linspace(start[2],s,4) array start, scalar stop", lambda np, x: np.linspace(onp.array([1.0, 2.0]), x, 4), [sc])
+    yield c("linspace", "np.linspace(x[2,1],y[3],3) broadcast start / stop", lambda np, x, y: np.linspace(x, y, 3), [kind(2, 1), kind(3)], 0)
+    yield c("linspace", "np.linspace(x[2,1],y[3],3) broadcast start / stop", lambda np, x, y: np.linspace(x, y, 3), [kind(2, 1), kind(3)], 1)
     yield c("linspace", "np.linspace(s,2.0) default num", lambda np, x: np.linspace(x, 2.0), [sc])
     for n in ("sort", "partition"):
         extra = () if n == "sort" else (1,)
@@ -469,6 +487,11 @@ def fam_shape(tier, kind=R):
         yield c(n, "np.%s(x,axis=0) 2-D" % n, lambda np, x, _n=n, _e=extra: getattr(np, _n)(x, *_e, axis=0), [kind(2, 2)])
         yield c(n, "np.%s(x,axis=None) 2-D" % n, lambda np, x, _n=n, _e=extra: getattr(np, _n)(x, *_e, axis=None), [kind(2, 2)])
         yield c(n, "np.%s(x) size-1" % n, lambda np, x, _n=n: getattr(np, _n)(x, *(() if _n == "sort" else (0,))), [kind(1)])
+    if kind is R:
+        # a real array made complex by a constructor / cast: the gradient w.r.t. the real array is real
+        yield c("array", "np.array(x, dtype=complex) * (1+2j)", lambda np, x: np.array(x, dtype=complex) * (1.0 + 2.0j) if np is not onp else x * (1.0 + 2.0j), [kind(2)])
+        yield c("astype", "x.astype(complex) * (1+2j)", lambda np, x: x.astype(complex) * (1.0 + 2.0j) if np is not onp else x * (1.0 + 2.0j), [kind(2)])
+        yield c("array", "np.asarray(x, dtype=complex) * (1+2j)", lambda np, x: np.asarray(x, dtype=complex) * (1.0 + 2.0j) if np is not onp else x * (1.0 + 2.0j), [kind(2)])
     yield c("astype", "x.astype(float) method", lambda np, x: x.astype(float) if hasattr(x, "_value") or x.dtype != object else x, [kind(2)])
     for n, f in [("take", lambda np, x: np.take(x, [0, 2])), ("take method", lambda np, x: x.take([0, 2])), ("compress", lambda np, x: np.compress([True, False, True], x)),
                  ("delete", lambda np, x: np.delete(x, 1)), ("insert", lambda np, x: np.insert(x, 1, 5.0)), ("copy", lambda np, x: np.copy(x)),
@@ -593,6 +616,16 @@ def fam_linalg(tier, kind=R):
         yield c("norm", "la.norm(x,ord=2,axis=-1)", lambda np, x: np.linalg.norm(x, ord=2, axis=-1), [kind(*s)])
     for n in ("cholesky", "eigh", "eig", "svd", "pinv", "qr", "eigvalsh", "eigvals", "matrix_rank", "cond", "lstsq", "tensorinv", "tensorsolve"):
         yield c(n, "la.%s(x) [LAPACK: outside the engine]" % n, lambda np, x, _n=n: getattr(np.linalg, _n)(x), [kind(2, 2)])
+    # rectangular / batched / option layouts of the LAPACK-backed rules (decided on float64: probes and the reuse protocol)
+    for s in [(2, 3), (3, 2), (2, 2, 3), (3, 3)]:
+        yield c("svd", "la.svd(x,full_matrices=False) [LAPACK: outside the engine]", lambda np, x: np.linalg.svd(x, full_matrices=False), [kind(*s)])
+        yield c("svd", "la.svd(x,compute_uv=False) [LAPACK: outside the engine]", lambda np, x: np.linalg.svd(x, compute_uv=False), [kind(*s)])
+        yield c("pinv", "la.pinv(x) rectangular [LAPACK: outside the engine]", lambda np, x: np.linalg.pinv(x), [kind(*s)])
+        yield c("qr", "la.qr(x) rectangular [LAPACK: outside the engine]", lambda np, x: np.linalg.qr(x), [kind(*s)])
+    for s in [(3, 3), (2, 2, 2)]:
+        yield c("eigh", "la.eigh(x + x^T) [LAPACK: outside the engine]", lambda np, x: np.linalg.eigh(x + np.swapaxes(x, -1, -2)), [kind(*s)])
+        yield c("cholesky", "la.cholesky(x x^T + 3I) [LAPACK: outside the engine]", lambda np, x: np.linalg.cholesky(np.matmul(x, np.swapaxes(x, -1, -2)) + 3.0 * onp.eye(x.shape[-1])), [kind(*s)])
+        yield c("slogdet", "la.slogdet(x)[1] batched", lambda np, x: np.linalg.slogdet(x)[1], [kind(*s)])
 
 
 def _ro_int(t):
@@ -771,7 +804,31 @@ def _ext_prims():
     qpass_argnum = primitive(lambda x, s_: x)
     defvjp_argnum(qpass_argnum, lambda argnum, ans, args, kwargs: (lambda g: 5.0 * g) if argnum == 0 else (lambda g: anp.sum(g) * 0.0))
     defjvp_argnum(qpass_argnum, lambda argnum, t, ans, args, kwargs: 5.0 * t if argnum == 0 else 0.0 * ans * t)
-    _EXT.update(qdot=qdot, qscale=qscale, qphase=qphase, qexp_pos=qexp_pos, qexp_argnum=qexp_argnum, qexp_argnums=qexp_argnums, qpass3=qpass3, qstop=qstop, qpass_argnum=qpass_argnum)
+    # the LEGACY registration API (autograd.primitive + f.defvjp(rule, argnum=k) / f.defgrad): rules receive
+    # (g, ans, vs, gvs, *args, **kwargs) and must see the call's keyword arguments
+    import warnings as _w
+
+    import autograd as _ag
+
+    with _w.catch_warnings():
+        _w.simplefilter("ignore")
+
+        @_ag.primitive
+        def qlegacy(x, w_, gain=1.0, shift=0.0):
+            return gain * x * w_ + shift
+
+        qlegacy.defvjp(lambda g, ans, vs, gvs, x, w_, gain=1.0, shift=0.0: g * gain * w_, argnum=0)
+        qlegacy.defvjp(lambda g, ans, vs, gvs, x, w_, gain=1.0, shift=0.0: g * gain * x, argnum=1)
+
+    # three traced operands through defvjp's generic branch (L >= 3)
+    @primitive
+    def qfma3(a, b, c_):
+        return a * b + c_
+
+    defvjp(qfma3, lambda ans, a, b, c_: lambda g: g * b, lambda ans, a, b, c_: lambda g: g * a, lambda ans, a, b, c_: lambda g: g)
+    defjvp(qfma3, lambda t, ans, a, b, c_: t * b, lambda t, ans, a, b, c_: t * a, lambda t, ans, a, b, c_: t)
+    _EXT.update(qdot=qdot, qscale=qscale, qphase=qphase, qexp_pos=qexp_pos, qexp_argnum=qexp_argnum, qexp_argnums=qexp_argnums, qpass3=qpass3, qstop=qstop, qpass_argnum=qpass_argnum,
+                qlegacy=qlegacy, qfma3=qfma3)
     return _EXT
 
 
@@ -801,6 +858,13 @@ def fam_extension(tier, kind=R):
                            lambda np, x, _q=q, _in=inner: x * _in(lambda y: _q(y, 2.0), x), [R(2)], 0)
                 c.oracle = lambda np, x: x * 2.0 * np.exp(x)
                 yield c
+        for k in (0, 1):
+            yield Config("ext-legacy", "legacy API f.defvjp(rule, argnum=k): keyword arguments gain=2.5, shift=-1 reach the rule",
+                         lambda np, x, w_: E["qlegacy"](x, w_, gain=2.5, shift=-1.0) if np is not onp else 2.5 * x * w_ - 1.0, [R(2), R(2)], k)
+            yield Config("ext-legacy", "legacy API f.defvjp(rule, argnum=k): default keyword arguments", lambda np, x, w_: E["qlegacy"](x, w_) if np is not onp else x * w_, [R(2), R(2)], k)
+        yield Config("ext-3", "primitive with three traced operands applied TWICE before the backward pass: f(x, x*x, sin x) * f(2x, x, cos x)",
+                     lambda np, x: (E["qfma3"](x, x * x, np.sin(x)) * E["qfma3"](2.0 * x, x, np.cos(x))) if np is not onp else ((x * x * x + np.sin(x)) * (2.0 * x * x + np.cos(x))), [R(2)], 0)
+        yield Config("ext-3", "primitive with three traced operands, nested: x * d/dy f(y, y*x, x)", lambda np, x: x * autograd.elementwise_grad(lambda y: E["qfma3"](y, y * x, x))(x) + E["qfma3"](x, x, x) if np is not onp else x * (2.0 * x * x) + x * x + x, [R(2)], 0)
         yield Config("ext-none", "user primitive qphase(x[2], t[3]) complex output, real t registered as None", lambda np, x, t: E["qphase"](x, t), [R(2), R(3)], 1)
         yield Config("ext-none", "sum(qscale(x, s)) + s**2 : None position also used elsewhere", lambda np, x, s_: np.sum(E["qscale"](x, s_)) + s_ ** 2, [R(3), SC], 1)
 
@@ -935,6 +999,12 @@ def complex_grid(tier):
     c("power", "z**2", lambda np, x: x ** 2, [Cx(2)])
     c("power", "z**3", lambda np, x: x ** 3, [Cx(2)])
     c("power", "z**-1", lambda np, x: x ** -1, [Cx(2)])
+    # a COMPLEX base differentiated w.r.t. the exponent: d/dw z**w = log(z) z**w with the complex logarithm (arg(z) included)
+    c("power", "z**w w.r.t. the exponent (complex base, complex exponent)", lambda np, x, y: x ** y, [Cx(2), Cx(2)], 1)
+    c("power", "np.power(z,t) w.r.t. a real exponent (complex base)", lambda np, x, y: np.power(x, y), [Cx(2), R(2)], 1)
+    c("power", "(0.5+1.5j)**t real t", lambda np, x: (0.5 + 1.5j) ** x, [R(2)])
+    c("power", "(1j)**t real t, real part", lambda np, x: np.real((1j) ** x), [R(2)])
+    c("power", "z**w w.r.t. the base (complex exponent)", lambda np, x, y: x ** y, [Cx(2), Cx(2)], 0)
     c("multiply", "z*1j", lambda np, x: x * 1j, [Cx(2)])
     c("multiply", "x*1j real x", lambda np, x: x * 1j, [R(2)])
     c("add", "x+2j real x", lambda np, x: x + 2j, [R(2)])
@@ -988,6 +1058,9 @@ def complex_grid(tier):
                       ("outer", lambda np, x, y: np.outer(x, y), [(2,), (2,)]), ("kron", lambda np, x, y: np.kron(x, y), [(2,), (2,)]), ("kron2", lambda np, x, y: np.kron(x, y), [(2, 2), (1, 2)]),
                       ("einsum", lambda np, x, y: np.einsum("ij,j->i", x, y), [(2, 2), (2,)]), ("einsum2", lambda np, x, y: np.einsum("ij,jk->ik", x, y), [(2, 2), (2, 2)]),
                       ("einsum3", lambda np, x, y: np.einsum("i,i->", x, y), [(2,), (2,)]), ("multiply bc", lambda np, x, y: x * y, [(2, 1), (2,)]),
+                      ("einsum sublists", lambda np, x, y: np.einsum(x, [0, 1], y, [1], [0]), [(2, 2), (2,)]), ("einsum sublists elementwise", lambda np, x, y: np.einsum(x, [0], y, [0], [0]), [(2,), (2,)]),
+                      ("einsum sublists ellipsis", lambda np, x, y: np.einsum(x, [Ellipsis, 0], y, [Ellipsis, 0], [Ellipsis]), [(2, 2), (2,)]), ("tensordot lists", lambda np, x, y: np.tensordot(x, y, ([1, 0], [0, 1])), [(2, 2), (2, 2)]),
+                      ("clip bounds", lambda np, x, y: np.clip(np.real(x), -0.5, 0.5) * y, [(2,), (2,)]), ("linspace", lambda np, x, y: np.linspace(x, y, 3), [(2,), (2,)]),
                       ("solve", lambda np, x, y: np.linalg.solve(x, y), [(2, 2), (2,)]), ("cross", lambda np, x, y: np.cross(x, y), [(3,), (3,)])]:
         for ka, kb in [("r", "c"), ("c", "r"), ("c", "c")]:
             for k in (0, 1):
@@ -1300,7 +1373,7 @@ def index_grid(tier):
     shapes = [(3,), (2, 3), (2, 3, 2)] + ([(2, 2, 2, 2)] if tier == "thorough" else []) + [()]
     for s in shapes:
         if s == ():
-            for i in [(), Ellipsis, None, (None, None), (Ellipsis, None)]:
+            for i in [(), Ellipsis, None, (None, None), (Ellipsis, None), True, False, onp.array(True), onp.array(False), (True,), (False, None), (Ellipsis, True)]:
                 out.append(Config("getitem", "IDX x[%s] on shape %s" % (_idx_repr(i), list(s)), lambda np, x, _i=i: x[_i], [R()], 0, tags=("index",)))
             continue
         for i in index_exprs(s, tier):
@@ -1362,6 +1435,10 @@ def index_grid(tier):
     out.append(Config("getitem", "IDX x[1:][::-1][[0,0]] chained", lambda np, x: x[1:][::-1][[0, 0]], [R(3)], 0, tags=("index",)))
     out.append(Config("getitem", "IDX x[idx] * x + x[idx2] array-valued mix", lambda np, x: x[[0, 0, 2]] * x + x[::-1], [R(3)], 0, tags=("index", "mix")))
     out.append(Config("getitem", "IDX 2-D rows then cols", lambda np, x: x[[1, 0]][:, [0, 0, 2]], [R(2, 3)], 0, tags=("index",)))
+    # boolean masks computed from the value itself on a rank-0 array (a relu written as a masked sum), mixed with dense uses
+    out.append(Config("getitem", "IDX rank-0 masked sum: sum(x[x > 0] * 3) + sin(x)", lambda np, x: np.sum(x[x > 0.0] * 3.0) + np.sin(x), [R()], 0, tags=("index", "mix")))
+    out.append(Config("getitem", "IDX rank-0 masked sum, dense use first: x * x + sum(x[x < 0.5]) + sum(x[True]) + sum(x[False])", lambda np, x: x * x + np.sum(x[x < 0.5]) + np.sum(x[True]) * 2.0 + np.sum(x[False]) * 5.0, [R()], 0, tags=("index", "mix")))
+    out.append(Config("getitem", "IDX rank-1 masked sum from the value: sum(x[x > 0] ** 2) + x[0]", lambda np, x: np.sum(x[x > 0.0] ** 2) + x[0], [R(2)], 0, tags=("index", "mix")))
     out.append(Config("getitem", "IDX scalar picks summed x[0,1]+x[0,1]+x[1,2]", lambda np, x: x[0, 1] + x[0, 1] * 2.0 + x[1, 2], [R(2, 3)], 0, tags=("index", "mix")))
     out.append(Config("getitem", "IDX x[i] for i in range: python loop", lambda np, x: sum(x[i] * float(i + 1) for i in range(3)), [R(3)], 0, tags=("index", "mix")))
     return _uniq(out)
@@ -1438,6 +1515,14 @@ def container_grid(tier):
     c("builtin isinstance(d, autograd dict) selects the branch", lambda np, d: np.sum(d["a"] * d["b"]) * (2.0 if _b.isinstance(d, AD(np)) else 5.0) + (7.0 if _b.isinstance(d, AT(np)) else 1.0) * np.sum(d["b"]), [{"a": R(2), "b": R(2)}])
     c("builtin isinstance on a NESTED traced container and on a slice of it", lambda np, t: np.sum(t[1][0]) * (2.0 if _b.isinstance(t[1], AL(np)) else 5.0) + np.sum(t[0]) * (3.0 if _b.isinstance(t[:1], AT(np)) else 11.0) + (0.0 if _b.isinstance(t[0], (AT(np), AL(np), AD(np))) else 1.0) * np.sum(t[1][1]), [(R(2), [R(2), R(2)])])
     c("autograd isinstance / type queries on traced containers", lambda np, t: np.sum(t[0]) * (2.0 if (isinstance if np is onp else ab.isinstance)(t, tuple) else 5.0) + np.sum(t[1][0]) * (3.0 if (isinstance if np is onp else ab.isinstance)(t[1], list) else 7.0) + (4.0 if (type if np is onp else ab.type)(t) is tuple else 9.0) * np.sum(t[1][0]), [(R(2), [R(2)])])
+    # dict.get on a traced dict: a key that is PRESENT with a falsy value (0.0) is not a missing key (decided at the pinned
+    # value 0 of that entry), an absent key yields the default
+    for pv in (0, 1):
+        cg = Config("container", "CONT dict.get(key, default) with the stored entry pinned to %d, an absent key, and d[key]" % pv,
+                    lambda np, d: d.get("offset", 7.0) * np.sum(d["w"]) + d.get("gain", 3.0) * d["w"][0] + d.get("missing", 2.0) * d["w"][1] + (d.get("nothing") is None) * d["offset"],
+                    [{"offset": SC, "gain": SC, "w": R(2)}], 0, tags=("container", "pinned"))
+        cg.pin_args = [(0, "offset", pv)]
+        out.append(cg)
     c("len / in / unpacking", lambda np, t: (lambda a, b: np.sum(a * b) * len(t))(*t), [(R(2), R(2))])
     c("wrt second container argument", lambda np, x, t: np.sum(x * t[0]) + t[1] * np.sum(x), [R(2), (R(2), SC)], 1)
     c("wrt array next to a container", lambda np, x, t: np.sum(x * t[0]) + t[1] * np.sum(x), [R(2), (R(2), SC)], 0)
